@@ -435,9 +435,56 @@ template <class E> static void family_import_random(E &e, long &kc, size_t n, in
 			if (sample.empty() && oc == 2) sample = J().kv("enc", enc).kv("src", "import").kv("n", (ll)n).kv("class", "one index = 2^64-1").kv("position", (ll)pos).kv("accepted", false).str();
 		}
 	}
+	// recorded, not judged (text syntax of a field is C11/C12's subject, the parsed vector stays a bijection):
+	// which spellings of the index 1 does strtoul-based parsing take?
+	if (n == 3 && B.cs.size() == n) {
+		const char *sp[][2] = {{"empty-for-0", ""}, {"plus-sign", "+1"}, {"leading-space", " 1"}, {"leading-zero", "01"}, {"minus-2^64-1", "-18446744073709551615"}, {"trailing-space", "1 "}, {"hex", "0x1"}};
+		for (auto &v : sp) {
+			std::vector<std::string> t = {"2", v[1], std::string(v[0]) == "empty-for-0" ? "1" : "0"};
+			TMCG_StackSecret<typename E::Secret> imp; int a = accepted([&] { return imp.import(join_sts(t, B.cs)); });
+			count(std::string("observed_index_spelling_") + v[0] + (a ? "_accepted" : "_refused"));
+		}
+	}
 	count("imports_random", tried); count("imports_" + enc, tried); if (n >= 128) count("imports_big_n", tried);
 	tl_rng = nullptr;
 	case_end(d.str(), tried > 0, sample, tried, (ll)distinct.size());
+}
+
+
+// ---------------------------------------------------------------- family R: import into an object that already holds a secret
+// (the property does not restrict the state of the importing object: `in >> ss` in a loop re-uses it)
+template <class E> static void family_import_reuse(E &e, long &kc, size_t n) {
+	J d; d.kv("fam", "import-into-used-object").kv("enc", e.name()).kv("n", (ll)n);
+	if (!case_begin(kc++, d.str())) return;
+	Rng r = case_rng(kc, 6); tl_rng = &r; std::string enc = e.name();
+	ImportBase<E> B; ll tried = 0; std::string sample;
+	if (B.build(e, n, enc)) {
+		auto text_of = [](const std::vector<size_t> &v) { std::vector<std::string> t; for (size_t x : v) t.push_back(std::to_string(x)); return t; };
+		std::vector<size_t> first(n); std::iota(first.begin(), first.end(), 0);
+		for (size_t i = 0; i + 1 < n; i++) std::swap(first[i], first[i + r.below(n - i)]);
+		std::vector<std::vector<size_t>> seconds;
+		seconds.push_back(std::vector<size_t>(n, 0));                       // all zero
+		{ auto v = first; v[n - 1] = v[0]; seconds.push_back(v); }            // one duplicate
+		for (auto &second : seconds) {
+			TMCG_StackSecret<typename E::Secret> obj;
+			std::string t1 = join_sts(text_of(first), B.cs), t2 = join_sts(text_of(second), B.cs);
+			bool a1 = accepted([&] { return obj.import(t1); });
+			if (!a1) { violation("C02/" + enc + "/import-refused-bijection", "import refused a stack secret whose index vector is a bijection", J().kv("text", shorten(t1, 300)).str()); continue; }
+			bool a2 = accepted([&] { return obj.import(t2); });
+			tried++; count("imports_into_used_object");
+			if (a2) violation("C02/" + enc + "/import-into-used-object-accepted-non-bijection",
+			                  "import() into a stack secret object that already holds an (earlier imported) secret accepted an index vector that is not a bijection",
+			                  J().kv("n", (ll)n).raw("first_vector", vec_json(first)).raw("second_vector", vec_json(second)).kv("first_text", shorten(t1, 300)).kv("second_text", shorten(t2, 300)).kv("size_after", (ll)obj.size()).raw("index_component_after", vec_json(index_of(obj))).str());
+			if (sample.empty()) sample = J().kv("enc", enc).kv("src", "import into used object").raw("first_vector", vec_json(first)).raw("second_vector", vec_json(second)).kv("second_accepted", a2).kv("size_after", (ll)obj.size()).str();
+		}
+		// recorded, not judged: does a second successful import replace or append?
+		{
+			TMCG_StackSecret<typename E::Secret> obj; std::string t1 = join_sts(text_of(first), B.cs);
+			if (obj.import(t1) && obj.import(t1)) count(obj.size() == n ? "observed_second_import_replaces" : "observed_second_import_appends");
+		}
+	}
+	tl_rng = nullptr;
+	case_end(d.str(), tried > 0, sample, tried, tried);
 }
 
 // ----------------------------------------------------------------
@@ -504,6 +551,11 @@ int main(int argc, char **argv) {
 		int reps = quick ? (n <= 64 ? 3 : 1) : (n <= 64 ? 60 : 12);
 		if (will_run(kc)) { EncDlog e; e.W = dlog_world(1); family_import_random(e, kc, n, reps); } else kc++;
 		if (n <= 128 || !quick) { if (will_run(kc)) { EncQr e; e.W = qr_world(2, 3); family_import_random(e, kc, n, n > 128 ? 3 : reps); } else kc++; }
+	}
+	// R: import into an object that is not empty
+	for (size_t n : {2, 3, 5}) {
+		if (will_run(kc)) { EncDlog e; e.W = dlog_world(1); family_import_reuse(e, kc, n); } else kc++;
+		if (will_run(kc)) { EncQr e; e.W = qr_world(2, 3); family_import_reuse(e, kc, n); } else kc++;
 	}
 	finish();
 	return 0;
